@@ -865,6 +865,19 @@ func (ce *CEnv) call(e *ECall) CVal {
 			efail("typeIs: second argument must be a type")
 		}
 		return CVal{T: mkEq(mk(SInt, "if-tag", x.T), ce.u.typeTag(ty)), Ty: types.Typ[types.Bool]}
+	case "rangepos":
+		// rangepos(): byte offset at which the function's (first) string range iterator stands
+		var region string
+		for _, r := range sortedKeys(ce.u.rsorts) {
+			if strings.HasPrefix(r, "Gh_iter_") {
+				region = r
+				break
+			}
+		}
+		if region == "" {
+			efail("rangepos(): the function has no string range loop")
+		}
+		return CVal{T: ce.u.heapGet(ce.heap, region), Ty: types.Typ[types.Int]}
 	case "strcat":
 		// strcat(a, b): string concatenation (the same uninterpreted function the code's a + b uses)
 		a, b := ce.eval(e.Args[0]), ce.eval(e.Args[1])
